@@ -119,14 +119,15 @@ STD_ASSUMPTIONS = [
 ]
 
 
-def oracle(name, havoc_fields=(), post=(), may_raise=True, ret_ty=None, record=True):
+def oracle(name, havoc_fields=(), post=(), may_raise=True, ret_ty=None, record=True, havoc_arg=0):
     """A user hook / external callable: arbitrary result constrained by `post`, may raise any Exception,
        may modify the listed fields of its first argument (and nothing else)."""
     def model(ex, p, args, kwargs, node):
         argv = [a for a in args]
         for fld in havoc_fields:
-            ex.write_barrier(p, ("field", fld, argv[0].t), node)
-            p.havoc_field(argv[0].t, fld)
+            ex.write_barrier(p, ("field", fld, argv[havoc_arg].t), node)
+            nv = p.havoc_field(argv[havoc_arg].t, fld)
+            p.pc.append(input_ok_or_fresh(p, nv))
         ok = p.clone()
         r = fresh("ret_" + name)
         ok.pc.append(input_ok_or_fresh(ok, r))
